@@ -192,7 +192,7 @@ Qed.
 Theorem own_step cfg s e s' :
   all_disciplined cfg -> Own s -> step cfg s e = Some s' -> Own s'.
 Proof.
-  intros HC HS ST. destruct e as [o|o|n o r|n o r|n o was|o|o]; simpl in ST.
+  intros HC HS ST. destruct e as [o|o rs|n o r|n o r|n o was|o|o]; simpl in ST.
   - (* EIssue *)
     destruct (op_of s o) eqn:Eo; try discriminate.
     assert (R : o < length (ops s)) by (apply op_of_range; congruence).
